@@ -1,30 +1,34 @@
-"""C17 translator: the table-shaped parts of the static-page mechanism, extracted from the
-working tree's source with `ast` and written to lean/FordModel/Generated/C17.lean.
+"""C17 translator: the table-shaped parts of the static-page mechanism -> lean/FordModel/Generated/C17.lean
+and Generated/C17Probe.lean.  Since round 5 the tables follow the MEANING of the code: wherever the real code
+can be run on a stub input the table is what it is observed to do (a rename, an extracted helper, a literal
+hoisted to a constant, `a / "x" / b` written `a.joinpath("x", b)` change nothing); the source text is read only for
+the call tables, and there arguments are bound to the callee's parameters and constants are resolved.
 
-  aliasTable   the dict literal passed to `aliases.update({...})` in ford.main
-               ("url" / "media" / "page" -> path segments appended to project_url)
-  pageDirSeg   BasePage.__init__ : self.page_dir = self.out_dir / "page"
-  locSeg       PagetreePage.loc  : pathlib.Path("page") / self.obj.path
-  nodeUrlSeg   PageNode.url      : self.base_url / "page" / self.path
-  convPathSeg  PageNode.__init__ : output_dir / "page" / self.path.parent
-  indexName    the one string constant "index.md" used by pagetree.py (3 sites)
-  mdSuffix     get_page_tree     : filename.suffix == ".md"
-  skipFirst/skipLast  get_page_tree : `if name[0] == ".": continue`, `if name[-1] == "~": continue`
-  gptParams / pageNodeParams   the parameter lists (with default literals) of get_page_tree / PageNode.__init__
-  recCall / indexNodeCall / subNodeCall / mainCall
-               every call by which one level of the walk hands its per-run arguments on: the recursive
-               `get_page_tree(...)` call, the two `PageNode(...)` calls (index.md / sibling page) and the call
-               in ford.main; each bound to the callee's parameters (parameter -> expression passed)
-  readTextArg  PageNode.__init__ : `Path(path).read_text(<expr>)` - how the file is decoded
-  mediaSrcKey / mediaDestSeg   Documentation.writeout : `copytree(self.data[<key>], out_dir / <constants>)`
-               (the one copytree call whose source is a project setting) - where the media directory is put
-  outDirKey    Documentation.writeout : `out_dir = self.data[<key>]`
-  aliasRootExpr   ford.main : `url_path = pathlib.Path(<expr>)` - what the predefined aliases are rooted at
-  mdBaseUrlExpr   ford.main : `MetaMarkdown(..., base_url=<expr>, aliases=aliases, ...)`
-  aliasLayers  ford.main : the values `aliases` is built from, in source order (`copy.copy(x)`, every
-               `aliases.update(y)`; the dict literal of the predefined aliases is written `<predefined>`)
+ observed (main_probe: one complete `ford.main` run on a small project; what `MetaMarkdown` receives is bound to its
+ parameters with inspect.signature)
+  aliasTable   the aliases whose value lies at or below `base_url`: name -> segments ("url" / "media" / "page")
+  aliasRootExpr / mdBaseUrlExpr   the value of |url| / the `base_url` of MetaMarkdown
+  aliasLayers  who wins when the user defines an alias called `url` (increasing precedence)
+  mediaDestSeg / mediaSrcKey / outDirKey   where a marker file of `media_dir: ./figs` is found below `output_dir: ./outdoc`
+ observed (page_probe: the real get_page_tree / PageNode / PagetreePage on the probe directory PROBE_DIR)
+  pageDirSeg / locSeg / nodeUrlSeg / convPathSeg   where a page is put (page_dir, loc, url, path= of the conversion);
+               PagetreePage.outfile must be page_dir / <path of the page>
+  skipFirst / skipLast   the first / last characters (of all printable ASCII) that make the walk pass over an entry
+  walkProbeDir / walkProbePages / walkProbeFiles  (Generated/C17Probe.lean) the pages and files built for a page
+               directory whose entries are partly symbolic links (file / asset / directory kept outside the page
+               directory, link to a sibling, link to nothing) and whose index.md names `../outside.md`
+ observed (alias_probe)
+  aliasProbeAliases / aliasProbeIn / aliasProbeOut   what the alias preprocessor that `MetaMarkdown(aliases=...)`
+               registers makes of a fixed list of lines (aliases at the start of a line, behind blanks / tabs / list
+               and quote markers, escaped, unknown)
+ read from the source (ast)
+  indexName    the one index-file name pagetree.py uses (literal or module-level constant)
+  mdSuffix     get_page_tree: `<path>.suffix == <constant>`
+  gptParams / pageNodeParams / recCall / indexNodeCall / subNodeCall / mainCall / readTextArg
+               every call by which one level of the walk hands its per-run arguments on, each bound to the
+               callee's parameters (parameter -> expression passed)
 
-Every extractor raises when its construct is not found (tie broken, never a pass).
+Every extractor raises when its construct is not found / its probe cannot be run (tie broken, never a pass).
 """
 from __future__ import annotations
 
@@ -43,19 +47,6 @@ def _parse(rel):
     return ast.parse(p.read_text(), filename=str(p))
 
 
-def _div_chain(node):
-    """a / "x" / "y" -> (leftmost node, ["x", "y"]) (constants only)"""
-    segs = []
-    while isinstance(node, ast.BinOp) and isinstance(node.op, ast.Div):
-        r = node.right
-        if isinstance(r, ast.Constant) and isinstance(r.value, str):
-            segs.append(r.value)
-        else:
-            segs.append(None)
-        node = node.left
-    return node, list(reversed(segs))
-
-
 def _func(tree, name, cls=None):
     for n in ast.walk(tree):
         if cls is not None:
@@ -68,377 +59,573 @@ def _func(tree, name, cls=None):
     raise NotFound(f"function {cls + '.' if cls else ''}{name}")
 
 
-def alias_table():
-    main = _func(_parse("ford/__init__.py"), "main")
-    for n in ast.walk(main):
-        if (isinstance(n, ast.Call) and isinstance(n.func, ast.Attribute) and n.func.attr == "update"
-                and isinstance(n.func.value, ast.Name) and n.func.value.id == "aliases"
-                and n.args and isinstance(n.args[0], ast.Dict)):
-            d = n.args[0]
-            keys = [k.value for k in d.keys if isinstance(k, ast.Constant)]
-            if "page" not in keys:
-                continue
-            out = []
-            for k, v in zip(d.keys, d.values):
-                if not (isinstance(v, ast.Call) and isinstance(v.func, ast.Name) and v.func.id == "str" and len(v.args) == 1):
-                    raise NotFound(f"alias value for {k.value!r} is not str(<path>)")
-                left, segs = _div_chain(v.args[0])
-                if not (isinstance(left, ast.Name) and left.id == "url_path") or None in segs:
-                    raise NotFound(f"alias value for {k.value!r} is not url_path / <constants>")
-                out.append((k.value, segs))
-            return out
-    raise NotFound("aliases.update({... 'page' ...}) in ford.main")
+def _module_constants(tree):
+    """module-level `NAME = "text"` bindings (a name bound once to a string constant)"""
+    out, seen = {}, set()
+    for st in tree.body:
+        tgt = val = None
+        if isinstance(st, ast.Assign) and len(st.targets) == 1:
+            tgt, val = st.targets[0], st.value
+        elif isinstance(st, ast.AnnAssign) and st.value is not None:
+            tgt, val = st.target, st.value
+        if isinstance(tgt, ast.Name):
+            if tgt.id in seen:
+                out.pop(tgt.id, None)  # rebound: not a constant
+            elif isinstance(val, ast.Constant) and isinstance(val.value, str):
+                out[tgt.id] = val.value
+            seen.add(tgt.id)
+    return out
 
 
-def media_copy():
-    """Documentation.writeout: copytree(self.data["media_dir"], out_dir / "media")"""
-    fn = _func(_parse("ford/output.py"), "writeout", "Documentation")
-    out_key = None
-    for n in ast.walk(fn):
-        tgt = None
-        if isinstance(n, ast.AnnAssign) and n.value is not None:
-            tgt = n.target
-        elif isinstance(n, ast.Assign) and len(n.targets) == 1:
-            tgt = n.targets[0]
-        if isinstance(tgt, ast.Name) and tgt.id == "out_dir":
-            k = _data_key(n.value)
-            if k is None or out_key is not None:
-                raise NotFound("Documentation.writeout: exactly one `out_dir = self.data[<key>]`")
-            out_key = k
-    if out_key is None:
-        raise NotFound("Documentation.writeout: out_dir = self.data[<key>]")
-    found = []
-    for c in _calls_to(fn, "copytree"):
-        if len(c.args) != 2 or c.keywords:
-            raise NotFound("Documentation.writeout: copytree(<src>, <dst>)")
-        k = _data_key(c.args[0])
-        if k is None:
-            continue
-        left, segs = _div_chain(c.args[1])
-        if not (isinstance(left, ast.Name) and left.id == "out_dir") or None in segs:
-            raise NotFound(f"Documentation.writeout: copytree(self.data[{k!r}], out_dir / <constants>)")
-        found.append((k, segs))
-    if len(found) != 1:
-        raise NotFound(f"Documentation.writeout: exactly one copytree of a project setting, found {found}")
-    return found[0][0], found[0][1], out_key
-
-
-def _data_key(node):
-    """self.data["key"] -> "key" """
-    if (isinstance(node, ast.Subscript) and isinstance(node.value, ast.Attribute) and node.value.attr == "data"
-            and isinstance(node.value.value, ast.Name) and node.value.value.id == "self"
-            and isinstance(node.slice, ast.Constant) and isinstance(node.slice.value, str)):
-        return node.slice.value
+def _str_value(node, consts):
+    """the string a constant expression denotes: a literal, or a name bound to one at module level"""
+    if isinstance(node, ast.Constant) and isinstance(node.value, str):
+        return node.value
+    if isinstance(node, ast.Name) and node.id in consts:
+        return consts[node.id]
     return None
 
 
-def alias_setup():
-    """ford.main: what `aliases` is built from (in source order), what the predefined aliases are rooted
-    at, and what MetaMarkdown gets as base_url / aliases"""
-    main = _func(_parse("ford/__init__.py"), "main")
-    layers = []
-    root = None
-    for st in main.body:
-        if isinstance(st, ast.Assign) and len(st.targets) == 1 and isinstance(st.targets[0], ast.Name):
-            name = st.targets[0].id
-            if name == "aliases":
-                v = st.value
-                if (isinstance(v, ast.Call) and isinstance(v.func, ast.Attribute) and v.func.attr == "copy"
-                        and len(v.args) == 1):
-                    layers.append(_expr(v.args[0]))
-                else:
-                    layers.append(_expr(v))
-            elif name == "url_path":
-                v = st.value
-                if not (isinstance(v, ast.Call) and isinstance(v.func, ast.Attribute) and v.func.attr == "Path"
-                        and len(v.args) == 1 and not v.keywords) or root is not None:
-                    raise NotFound("ford.main: exactly one `url_path = pathlib.Path(<expr>)`")
-                root = _expr(v.args[0])
-        elif (isinstance(st, ast.Expr) and isinstance(st.value, ast.Call)
-              and isinstance(st.value.func, ast.Attribute) and isinstance(st.value.func.value, ast.Name)
-              and st.value.func.value.id == "aliases"):
-            c = st.value
-            if c.func.attr != "update" or len(c.args) != 1 or c.keywords:
-                raise NotFound(f"ford.main: aliases.{c.func.attr}(...) is not a plain update(<mapping>)")
-            a = c.args[0]
-            if isinstance(a, ast.Dict):
-                keys = [k.value for k in a.keys if isinstance(k, ast.Constant)]
-                layers.append("<predefined>" if "page" in keys else ast.unparse(a))
-            else:
-                layers.append(_expr(a))
-    # any other statement of main that touches `aliases` before it is handed over (nested, augmented, ...)
-    n_touch = sum(1 for n in ast.walk(main) if isinstance(n, ast.Name) and n.id == "aliases")
-    mds = _calls_to(main, "MetaMarkdown")
-    if len(mds) != 1:
-        raise NotFound(f"ford.main: exactly one MetaMarkdown(...) call, found {len(mds)}")
-    kw = {k.arg: k.value for k in mds[0].keywords}
-    if not (isinstance(kw.get("aliases"), ast.Name) and kw["aliases"].id == "aliases") or "base_url" not in kw:
-        raise NotFound("ford.main: MetaMarkdown(..., base_url=<expr>, aliases=aliases)")
-    if root is None or not layers:
-        raise NotFound("ford.main: url_path = pathlib.Path(<expr>) / aliases = ...")
-    if n_touch != len(layers) + 1:
-        raise NotFound(f"ford.main: `aliases` is used {n_touch} times, expected one assignment, "
-                       f"{len(layers) - 1} update(...) statements and the MetaMarkdown argument")
-    return {"aliasRootExpr": root, "mdBaseUrlExpr": _expr(kw["base_url"]), "aliasLayers": layers}
-
-
-def _assigned_chain(fn, pred, what, strip_tail=0):
-    for n in ast.walk(fn):
-        if isinstance(n, (ast.Assign, ast.Return)) and n.value is not None:
-            left, segs = _div_chain(n.value)
-            if segs and pred(n, left, segs):
-                return left, segs
-    raise NotFound(what)
-
-
-def page_dir_seg():
-    init = _func(_parse("ford/output.py"), "__init__", "BasePage")
-    for n in ast.walk(init):
-        if (isinstance(n, ast.Assign) and isinstance(n.targets[0], ast.Attribute)
-                and n.targets[0].attr == "page_dir"):
-            left, segs = _div_chain(n.value)
-            if isinstance(left, ast.Attribute) and left.attr == "out_dir" and None not in segs:
-                return segs
-    raise NotFound("BasePage.__init__: self.page_dir = self.out_dir / <constants>")
-
-
-def loc_seg():
-    fn = _func(_parse("ford/output.py"), "loc", "PagetreePage")
-    for n in ast.walk(fn):
-        if isinstance(n, ast.Return):
-            left, segs = _div_chain(n.value)
-            # pathlib.Path("page") / self.obj.path
-            if (isinstance(left, ast.Call) and left.args and isinstance(left.args[0], ast.Constant)
-                    and segs == [None]):
-                return [left.args[0].value]
-    raise NotFound('PagetreePage.loc: pathlib.Path(<constant>) / self.obj.path')
-
-
-def outfile_is_pagedir():
-    fn = _func(_parse("ford/output.py"), "outfile", "PagetreePage")
-    for n in ast.walk(fn):
-        if isinstance(n, ast.Return):
-            left, segs = _div_chain(n.value)
-            if isinstance(left, ast.Attribute) and left.attr == "page_dir" and segs == [None]:
-                return True
-    raise NotFound("PagetreePage.outfile: self.page_dir / self.obj.path")
-
-
-def node_url_seg():
-    fn = _func(_parse("ford/pagetree.py"), "url", "PageNode")
-    for n in ast.walk(fn):
-        if isinstance(n, ast.Return):
-            left, segs = _div_chain(n.value)
-            if isinstance(left, ast.Attribute) and left.attr == "base_url" and segs and segs[-1] is None and None not in segs[:-1]:
-                return segs[:-1]
-    raise NotFound("PageNode.url: self.base_url / <constants> / self.path")
-
-
-def conv_path_seg():
-    fn = _func(_parse("ford/pagetree.py"), "__init__", "PageNode")
-    for n in ast.walk(fn):
-        if isinstance(n, ast.Assign) and isinstance(n.targets[0], ast.Name) and n.targets[0].id == "output_path":
-            left, segs = _div_chain(n.value)
-            if isinstance(left, ast.Name) and left.id == "output_dir" and segs and segs[-1] is None and None not in segs[:-1]:
-                return segs[:-1]
-    raise NotFound("PageNode.__init__: output_path = output_dir / <constants> / self.path.parent")
-
-
 def pagetree_constants():
+    """the index-file name and the page suffix that pagetree.py compares with - literals or module-level
+    constants, whatever they are called"""
     tree = _parse("ford/pagetree.py")
+    consts = _module_constants(tree)
     gpt = _func(tree, "get_page_tree")
     init = _func(tree, "__init__", "PageNode")
     idx = set()
     for fn in (gpt, init):
         for n in ast.walk(fn):
-            if isinstance(n, ast.Constant) and isinstance(n.value, str) and n.value.startswith("index"):
-                idx.add(n.value)
+            v = _str_value(n, consts) if isinstance(n, (ast.Constant, ast.Name)) else None
+            if v is not None and v.startswith("index"):
+                idx.add(v)
     if len(idx) != 1:
         raise NotFound(f"exactly one index-file constant in pagetree.py, found {sorted(idx)}")
-    skips = {}
-    suffix = None
-
-    def helper_test(call):
-        """`f(name)` for a module-level `def f(x): return <expr>`: that expression with `x` renamed to `name`"""
-        if not (isinstance(call, ast.Call) and isinstance(call.func, ast.Name) and len(call.args) == 1 and not call.keywords
-                and isinstance(call.args[0], ast.Name) and call.args[0].id == "name"):
-            return None
-        for f in tree.body:
-            if isinstance(f, ast.FunctionDef) and f.name == call.func.id and len(f.args.args) == 1:
-                body = [b for b in f.body if not (isinstance(b, ast.Expr) and isinstance(b.value, ast.Constant))]
-                if len(body) == 1 and isinstance(body[0], ast.Return) and body[0].value is not None:
-                    param = f.args.args[0].arg
-                    expr = ast.parse(ast.unparse(body[0].value), mode="eval").body
-                    for x in ast.walk(expr):
-                        if isinstance(x, ast.Name) and x.id == param:
-                            x.id = "name"
-                    return expr
-        return None
-
-    def skip_compare(n):
-        """(k, char) of `name[k] == <char>`, else None"""
-        if isinstance(n, ast.Compare) and len(n.ops) == 1 and isinstance(n.ops[0], ast.Eq):
-            l, r = n.left, n.comparators[0]
-            if (isinstance(l, ast.Subscript) and isinstance(l.value, ast.Name) and l.value.id == "name"
-                    and isinstance(r, ast.Constant) and isinstance(r.value, str) and len(r.value) == 1):
-                sl = l.slice
-                if isinstance(sl, ast.UnaryOp) and isinstance(sl.op, ast.USub) and isinstance(sl.operand, ast.Constant):
-                    return (-sl.operand.value, r.value)
-                if isinstance(sl, ast.Constant):
-                    return (sl.value, r.value)
-        return None
-
-    def disjuncts(t):
-        """the `name[k] == c` tests of a disjunction (a single test, `a or b`, or a helper returning one), in order"""
-        t = helper_test(t) or t
-        parts = t.values if isinstance(t, ast.BoolOp) and isinstance(t.op, ast.Or) else [t]
-        got = [skip_compare(x) for x in parts]
-        return got if all(g is not None for g in got) else None
-
-    # each skip test must guard a `continue`: `if name[k] == c: continue`, any `or` of such tests, possibly in a helper
-    n_cont = 0
+    suffix = set()
     for n in ast.walk(gpt):
         if isinstance(n, ast.Compare) and len(n.ops) == 1 and isinstance(n.ops[0], ast.Eq):
-            l, r = n.left, n.comparators[0]
-            if (isinstance(l, ast.Attribute) and l.attr == "suffix" and isinstance(r, ast.Constant)):
-                suffix = r.value
-        if isinstance(n, ast.If) and len(n.body) == 1 and isinstance(n.body[0], ast.Continue) and not n.orelse:
-            ds = disjuncts(n.test)
-            if ds:
-                for k, c in ds:
-                    skips.setdefault(k, []).append(c)
-                    n_cont += 1
-    # a test on `name[k]` anywhere else in the function is something the model does not have
-    stray = sum(1 for n in ast.walk(gpt) if skip_compare(n) is not None)
-    helper_hits = sum(len(disjuncts(n.test) or []) for n in ast.walk(gpt)
-                      if isinstance(n, ast.If) and helper_test(n.test) is not None)
-    if stray + helper_hits != n_cont:
-        raise NotFound(f"a test `name[k] == <char>` that does not guard a `continue` ({stray}+{helper_hits} tests, {n_cont} guarded)")
-    if set(skips) - {0, -1} or n_cont != sum(len(v) for v in skips.values()) or not skips:
-        raise NotFound(f"skip rules `if name[0|-1] == <char>: continue` (found {skips}, {n_cont} guarded continues)")
-    if suffix is None:
-        raise NotFound('get_page_tree: filename.suffix == ".md"')
-    return idx.pop(), suffix, skips.get(0, []), skips.get(-1, [])
+            for a, b in ((n.left, n.comparators[0]), (n.comparators[0], n.left)):
+                if isinstance(a, ast.Attribute) and a.attr == "suffix" and _str_value(b, consts) is not None:
+                    suffix.add(_str_value(b, consts))
+    if len(suffix) != 1:
+        raise NotFound(f'get_page_tree: exactly one comparison `<path>.suffix == <constant>`, found {sorted(suffix)}')
+    return idx.pop(), suffix.pop()
+
+
+# ---- tables obtained by running the real code (spelling-independent) ----
+
+_SKIP_CANDIDATES = [chr(c) for c in range(0x20, 0x7F) if chr(c) != "/"]
+
+
+def skip_probe(get_page_tree, md, d):
+    """which first / last characters make `get_page_tree` pass over a directory entry: one file per candidate
+    character (all printable ASCII characters that a file name can contain) at the front / at the end of a
+    non-Markdown name; the entries that are not recorded as files of the page were skipped"""
+    pg = d / "skip-probe"
+    pg.mkdir()
+    (pg / "index.md").write_text("title: Top\n\ntext\n")
+    front = {c + "qq.dat": c for c in _SKIP_CANDIDATES}
+    back = {"qq.da" + c: c for c in _SKIP_CANDIDATES}
+    for n in list(front) + list(back):
+        (pg / n).write_text("x\n")
+    with common.quiet():
+        top = get_page_tree(pg, [], d / "skip-out", md)
+    if top is None or list(top) != [top]:
+        raise NotFound("get_page_tree: the skip probe directory (index.md + data files) is not one page")
+    files = {str(f) for f in top.files}
+    if not files <= set(front) | set(back):
+        raise NotFound(f"get_page_tree: unexpected files {sorted(files - set(front) - set(back))[:5]} in the skip probe")
+    first = [c for n, c in front.items() if n not in files]
+    last = [c for n, c in back.items() if n not in files]
+    return first, last
+
+
+def _rel_parts(p, base, what):
+    try:
+        return list(Path(p).relative_to(base).parts)
+    except ValueError:
+        raise NotFound(f"{what}: {p} is not below {base}")
+
+
+def _strip_suffix(parts, tail, what):
+    tail = list(tail)
+    if tail and parts[len(parts) - len(tail):] != tail:
+        raise NotFound(f"{what}: {'/'.join(parts)} does not end in {'/'.join(tail)}")
+    return parts[:len(parts) - len(tail)]
+
+
+def _same(values, what):
+    vs = [v for v in values]
+    if not vs or any(v != vs[0] for v in vs):
+        raise NotFound(f"{what}: not the same for every page of the probe directory: {vs[:4]}")
+    return vs[0]
+
+
+def page_probe():
+    """the real `get_page_tree`, `PageNode` and `PagetreePage` on the probe directory (see PROBE_DIR): the pages
+    and files that are built (walkProbe*), and where each page is put:
+      nodeUrlSeg   `PageNode.url` relative to `base_url`, without the page's own path
+      convPathSeg  the `path=` that `PageNode` hands to the Markdown conversion, relative to the output directory,
+                   without the page's location
+      pageDirSeg   `PagetreePage.page_dir` relative to the output directory
+      locSeg       `PagetreePage.loc` without the page's own path
+    and `PagetreePage.outfile` must be `page_dir / <path of the page>`; plus the skip characters (skip_probe)"""
+    import inspect
+    import os
+    from types import SimpleNamespace
+
+    common.import_ford()
+    from ford._markdown import MetaMarkdown
+    from ford.output import PagetreePage
+    from ford.pagetree import get_page_tree
+
+    with common.scratch_dir("ford-c17-probe-") as d:
+        d = Path(os.path.realpath(d))
+        out = d / "out"
+        seen = []
+
+        class Recording(MetaMarkdown):
+            def convert(self, source, *a, **k):
+                b = inspect.signature(MetaMarkdown.convert).bind(self, source, *a, **k)
+                seen.append(b.arguments.get("path"))
+                return super().convert(source, *a, **k)
+
+        md = Recording(base_url=out)
+        _probe_write(d / "pages", d / "elsewhere", PROBE_DIR, [0])
+        (d / "outside.md").write_text("title: Outside\n\ntext\n")
+        with common.quiet():
+            top = get_page_tree(d / "pages", [], out, md)
+        if top is None:
+            raise NotFound("get_page_tree returns nothing for the probe directory")
+        nodes = list(top)
+        paths = [list(Path(n.path).parts) for n in nodes]
+        url_seg = _same([_strip_suffix(_rel_parts(n.url, out, "PageNode.url"), p, "PageNode.url")
+                         for n, p in zip(nodes, paths)], "PageNode.url")
+        conv = {tuple(_rel_parts(x, out, "path= of the Markdown conversion")) for x in seen if x is not None}
+        locs = [[x for x in Path(n.location).parts if x != "."] for n in nodes]
+        conv_seg = _strip_suffix(sorted(conv, key=len)[0] if conv else [], [], "")
+        conv_seg = list(conv_seg)
+        for loc in locs:
+            if tuple(conv_seg + loc) not in conv:
+                raise NotFound(f"PageNode: no Markdown conversion with path=<output>/{'/'.join(conv_seg + loc)}")
+        data = {"output_dir": out, "relative": True, "page_dir": d / "pages"}
+        proj = SimpleNamespace(settings=SimpleNamespace(project_url=out))
+        pages = [PagetreePage(data, proj, n) for n in nodes]
+        page_dir_seg = _same([_rel_parts(pg.page_dir, out, "PagetreePage.page_dir") for pg in pages], "page_dir")
+        loc_seg = _same([_strip_suffix(list(Path(pg.loc).parts), p, "PagetreePage.loc") for pg, p in zip(pages, paths)],
+                        "PagetreePage.loc")
+        for pg, n in zip(pages, nodes):
+            if Path(pg.outfile) != Path(pg.page_dir) / n.path:
+                raise NotFound(f"PagetreePage.outfile is {pg.outfile}, not page_dir / {n.path}")
+        first, last = skip_probe(get_page_tree, MetaMarkdown(), d)
+        return {"walkProbePages": paths,
+                "walkProbeFiles": [[str(f) for f in n.files] for n in nodes],
+                "nodeUrlSeg": url_seg, "convPathSeg": conv_seg, "pageDirSeg": page_dir_seg, "locSeg": loc_seg,
+                "skipFirst": first, "skipLast": last}
+
+
+ROOT = "<root>"
+
+
+def main_probe():
+    """one complete `ford.main` run on a small project (media_dir `./figs` holding `sub/marker.bin`, output_dir
+    `./outdoc`, user aliases `url` and `mine`): what `MetaMarkdown` is given as `base_url` / `aliases`
+    (bound to its parameters, however the call is written) and where the media directory ends up.
+      aliasTable    the aliases whose value lies at or below base_url, in dictionary order: name -> segments
+      aliasRootExpr the value of |url|;  mdBaseUrlExpr  base_url   (the scratch directory written `<root>`)
+      aliasLayers   in increasing precedence: who wins when the user defines an alias called `url`
+      mediaDestSeg  where below the output directory the file `sub/marker.bin` of media_dir is found
+      mediaSrcKey / outDirKey  the project settings that were used for that (`media_dir`, `output_dir`)"""
+    import inspect
+    import os
+
+    from harness import e2e
+
+    ford = common.import_ford()
+    with common.scratch_dir("ford-c17-main-") as d:
+        d = Path(os.path.realpath(d))
+        pf = e2e.write_project(d, {"a.f90": "module foo\nend module foo\n"},
+                               pages={"index.md": "title: Top\n\ntext\n"},
+                               options={"media_dir": "./figs", "output_dir": "./outdoc", "encoding": "iso-8859-15",
+                                        "copy_subdir": "c17-sentinel-directory",
+                                        "alias": ["url = https://user.example/u", "mine = user-value"]})
+        (d / "figs" / "sub").mkdir(parents=True)
+        (d / "figs" / "sub" / "marker.bin").write_bytes(b"marker")
+        cap = []
+        orig = ford.MetaMarkdown
+
+        class Recording(orig):
+            def __init__(self, *a, **k):
+                b = inspect.signature(orig.__init__).bind(self, *a, **k)
+                cap.append({"base_url": b.arguments.get("base_url"),
+                            "aliases": dict(b.arguments.get("aliases") or {})})
+                super().__init__(*a, **k)
+
+        gpt_calls = []
+        orig_gpt = ford.get_page_tree
+        gsig = inspect.signature(orig_gpt)
+
+        def gpt_wrapper(*a, **k):
+            gpt_calls.append(dict(gsig.bind(*a, **k).arguments))
+            return orig_gpt(*a, **k)
+
+        ford.MetaMarkdown = Recording
+        ford.get_page_tree = gpt_wrapper
+        try:
+            res = e2e.run_inprocess(pf)
+        finally:
+            ford.MetaMarkdown = orig
+            ford.get_page_tree = orig_gpt
+        if len(gpt_calls) != 1:
+            raise NotFound(f"ford.main calls get_page_tree {len(gpt_calls)} times, expected once")
+        if res["rc"] != 0 or not cap:
+            raise NotFound(f"ford.main on the probe project: rc={res['rc']} {res['exc']}, {len(cap)} MetaMarkdown objects")
+        if len(cap) != 1:
+            raise NotFound(f"ford.main makes {len(cap)} MetaMarkdown objects, expected one")
+        base, aliases = Path(str(cap[0]["base_url"])), cap[0]["aliases"]
+        table = []
+        for k, v in aliases.items():
+            try:
+                table.append((k, list(Path(str(v)).relative_to(base).parts)))
+            except ValueError:
+                pass
+        user_url = aliases.get("url") == "https://user.example/u"
+        layers = (["<predefined>"] if user_url else []) + (["proj_data.alias"] if "mine" in aliases or user_url else []) \
+            + ([] if user_url else ["<predefined>"])
+        out = Path(os.path.realpath(res["out"])) if res["out"] else None
+        if out != d / "outdoc" or not out.is_dir():
+            raise NotFound(f"ford.main wrote to {out}, the project says output_dir: ./outdoc")
+        markers = sorted(out.rglob("marker.bin"))
+        if len(markers) != 1 or markers[0].read_bytes() != b"marker" or markers[0].parent.name != "sub":
+            raise NotFound(f"the file sub/marker.bin of media_dir is found at {[str(m) for m in markers]} below the output")
+
+        def norm(x):
+            return str(x).replace(str(d), ROOT)
+
+        return {"mainCall": main_call_table(gpt_calls[0], res["settings"], orig),
+                "aliasTable": table, "aliasRootExpr": norm(aliases.get("url", "")), "mdBaseUrlExpr": norm(base),
+                "aliasLayers": layers, "mediaSrcKey": "media_dir", "outDirKey": "output_dir",
+                "mediaDestSeg": list(markers[0].parent.parent.relative_to(out).parts)}
 
 
 # ---- argument forwarding: what each level of the walk hands to the next ----
 
-def _expr(node):
-    """normal form of an argument expression: a name, 'literal (string constant), or its source text"""
-    if isinstance(node, ast.Name):
-        return node.id
-    if isinstance(node, ast.Constant) and isinstance(node.value, str):
-        return "'" + node.value
-    return ast.unparse(node)
+# ---- argument forwarding, observed: what each level of the walk hands to the next ----
+# The walk is run with a recognisable value for every per-run argument (a list object, a path, a Markdown object, a
+# progress object, the codec `latin-1`); `ford.pagetree.get_page_tree` and `ford.pagetree.PageNode` are wrapped, so every
+# call - also the recursive ones, which go through the module's name - is seen with its arguments bound to the callee's
+# parameters (inspect.signature).  An argument is then NAMED BY WHAT IT IS, not by how the source spells it:
+#   <name of a parameter of the caller>   the very value the enclosing get_page_tree call received for that parameter
+#   <entry>    the path of the directory entry being processed (the caller's directory / name)
+#   <index>    the index.md of the caller's directory
+#   <node>     the PageNode that the enclosing call made for its own index.md
+#   'text / None   a string / None that is none of the above (a literal)
+# and a parameter that the call does not pass is absent (the callee's default applies).
+
+FWD_ENTRY, FWD_INDEX, FWD_NODE = "<entry>", "<index>", "<node>"
 
 
-def _params(fn, drop_self=False):
-    a = fn.args
-    if a.vararg or a.kwarg or a.kwonlyargs or a.posonlyargs:
-        raise NotFound(f"{fn.name}: plain positional-or-keyword parameters only")
-    names = [x.arg for x in a.args]
-    defaults = [None] * (len(names) - len(a.defaults)) + list(a.defaults)
-    out = [(n, "" if d is None else _expr(d)) for n, d in zip(names, defaults)]
-    return out[1:] if drop_self else out
+def _default_expr(d):
+    import inspect
+
+    if d is inspect.Parameter.empty:
+        return ""
+    if isinstance(d, str):
+        return "'" + d
+    return repr(d)
 
 
-def _bind(call, params, what):
-    """bind the arguments of `call` to the callee's parameters; omitted parameters are absent"""
-    names = [n for n, _ in params]
-    if any(isinstance(a, ast.Starred) for a in call.args) or any(k.arg is None for k in call.keywords):
-        raise NotFound(f"{what}: */** arguments cannot be bound")
-    if len(call.args) > len(names):
-        raise NotFound(f"{what}: more positional arguments than parameters")
-    out = [(names[i], _expr(a)) for i, a in enumerate(call.args)]
-    for k in call.keywords:
-        if k.arg not in names or k.arg in dict(out):
-            raise NotFound(f"{what}: unexpected keyword {k.arg}")
-        out.append((k.arg, _expr(k.value)))
-    for n, d in params:
-        if d == "" and n not in dict(out):
-            raise NotFound(f"{what}: required parameter {n} not passed")
-    order = {n: i for i, n in enumerate(names)}
-    return sorted(out, key=lambda kv: order[kv[0]])
+def _sig_params(sig, drop_self=False):
+    import inspect
+
+    ps = list(sig.parameters.values())
+    if drop_self:
+        ps = ps[1:]
+    for q in ps:
+        if q.kind is not inspect.Parameter.POSITIONAL_OR_KEYWORD:
+            raise NotFound(f"parameter {q.name}: plain positional-or-keyword parameters only")
+    return [(q.name, _default_expr(q.default)) for q in ps]
 
 
-def _calls_to(fn, name):
-    return [n for n in ast.walk(fn) if isinstance(n, ast.Call) and isinstance(n.func, ast.Name) and n.func.id == name]
+def _label(v, ctx):
+    import os
+
+    if v is not None:
+        for q, cv in ctx["args"].items():
+            if v is cv:
+                return q
+        for q, cv in ctx["args"].items():
+            if isinstance(v, (str, os.PathLike)) and type(v) is type(cv) and v == cv:
+                return q
+    if isinstance(v, os.PathLike):
+        if Path(v) == ctx["entry"]:
+            return FWD_ENTRY
+        if Path(v) == ctx["index"]:
+            return FWD_INDEX
+    if ctx["node"] is not None and v is ctx["node"]:
+        return FWD_NODE
+    if isinstance(v, str):
+        return "'" + v
+    if v is None:
+        return "None"
+    return "?" + type(v).__name__
 
 
-def call_tables():
-    tree = _parse("ford/pagetree.py")
-    gpt = _func(tree, "get_page_tree")
-    init = _func(tree, "__init__", "PageNode")
-    gpt_params = _params(gpt)
-    node_params = _params(init, drop_self=True)
-    rec = _calls_to(gpt, "get_page_tree")
-    if len(rec) != 1:
-        raise NotFound(f"exactly one recursive get_page_tree call, found {len(rec)}")
-    loops = [n for n in ast.walk(gpt) if isinstance(n, ast.For)]
-    if len(loops) != 1:
-        raise NotFound(f"exactly one loop in get_page_tree, found {len(loops)}")
-    in_loop = {id(n) for n in ast.walk(loops[0])}
-    if id(rec[0]) not in in_loop:
-        raise NotFound("the recursive call is not inside the loop over the directory")
-    nodes = _calls_to(gpt, "PageNode")
-    idx = [c for c in nodes if id(c) not in in_loop]
-    sub = [c for c in nodes if id(c) in in_loop]
-    if len(idx) != 1 or len(sub) != 1:
-        raise NotFound(f"one PageNode call for index.md and one for sibling pages, found {len(idx)} / {len(sub)}")
-    reads = [n for n in ast.walk(init) if isinstance(n, ast.Call) and isinstance(n.func, ast.Attribute)
-             and n.func.attr == "read_text"]
-    if len(reads) != 1:
-        raise NotFound(f"PageNode.__init__: exactly one read_text call, found {len(reads)}")
-    r = reads[0]
-    if len(r.args) == 1 and not r.keywords:
-        read_arg = _expr(r.args[0])
-    elif not r.args and len(r.keywords) == 1 and r.keywords[0].arg == "encoding":
-        read_arg = _expr(r.keywords[0].value)
-    else:
-        raise NotFound("PageNode.__init__: read_text(<encoding expression>)")
-    main = _func(_parse("ford/__init__.py"), "main")
-    mc = _calls_to(main, "get_page_tree")
-    if len(mc) != 1:
-        raise NotFound(f"ford.main: exactly one get_page_tree call, found {len(mc)}")
-    return {
-        "gptParams": gpt_params,
-        "pageNodeParams": node_params,
-        "recCall": _bind(rec[0], gpt_params, "recursive get_page_tree call"),
-        "indexNodeCall": _bind(idx[0], node_params, "PageNode call for index.md"),
-        "subNodeCall": _bind(sub[0], node_params, "PageNode call for a sibling page"),
-        "mainCall": _bind(mc[0], gpt_params, "get_page_tree call in ford.main"),
-        "readTextArg": read_arg,
-    }
+def forward_probe():
+    import inspect
+    import os
+
+    common.import_ford()
+    import ford.pagetree as pt
+    from ford._markdown import MetaMarkdown
+
+    class Progress:
+        def set_current(self, *a, **k):
+            pass
+
+    with common.scratch_dir("ford-c17-fwd-") as d:
+        d = Path(os.path.realpath(d))
+        pages = d / "pages"
+        (pages / "sub" / "deep").mkdir(parents=True)
+        (pages / "index.md").write_text("title: Top\n\ntext\n")
+        (pages / "a.md").write_text("title: A\n\ntext\n")
+        (pages / "sub" / "index.md").write_text("title: Sub\n\ntext\n")
+        (pages / "sub" / "b.md").write_bytes("title: Café\n\ntext\n".encode("latin-1"))
+        (pages / "sub" / "deep" / "index.md").write_text("title: Deep\n\ntext\n")
+        (pages / "sub" / "deep" / "c.md").write_text("title: C\n\ntext\n")
+        orig_gpt, orig_node = pt.get_page_tree, pt.PageNode
+        gsig, nsig = inspect.signature(orig_gpt), inspect.signature(orig_node.__init__)
+        gparams, nparams = _sig_params(gsig), _sig_params(nsig, drop_self=True)
+        gcalls, ncalls = [], []
+
+        def wrapper(*a, **k):
+            b = gsig.bind(*a, **k)
+            given = dict(b.arguments)
+            b.apply_defaults()
+            gcalls.append({"given": given, "all": dict(b.arguments)})
+            return orig_gpt(*a, **k)
+
+        class Recording(orig_node):
+            def __init__(self, *a, **k):
+                b = nsig.bind(self, *a, **k)
+                given = dict(b.arguments)
+                given.pop(next(iter(nsig.parameters)))
+                ncalls.append({"given": given, "self": self})
+                super().__init__(*a, **k)
+
+        sent = {"topdir": pages, "proj_copy_subdir": ["c17-sentinel-directory"], "output_dir": d / "out-sentinel",
+                "md": MetaMarkdown(), "progress": Progress(), "encoding": "latin-1"}
+        missing = [q for q in sent if q not in gsig.parameters]
+        if missing:
+            raise NotFound(f"get_page_tree has no parameter {missing}")
+        pt.get_page_tree, pt.PageNode = wrapper, Recording
+        try:
+            with common.quiet():
+                top = wrapper(**sent)
+        finally:
+            pt.get_page_tree, pt.PageNode = orig_gpt, orig_node
+        if top is None:
+            raise NotFound("get_page_tree returns nothing for the forwarding probe directory")
+
+        def path_of(rec):
+            return Path(rec["given"].get("path", ""))
+
+        def gcall(topdir):
+            hits = [g for g in gcalls if Path(g["all"]["topdir"]) == topdir]
+            if len(hits) != 1:
+                raise NotFound(f"{len(hits)} get_page_tree calls for {topdir.relative_to(d)} (the recursion is not a call "
+                               f"of ford.pagetree.get_page_tree?)")
+            return hits[0]
+
+        def ncall(path):
+            hits = [n for n in ncalls if path_of(n) == path]
+            if len(hits) != 1:
+                raise NotFound(f"{len(hits)} PageNode objects made for {path.relative_to(d)}")
+            return hits[0]
+
+        def ctx(directory, entry):
+            node = [n["self"] for n in ncalls if path_of(n) == directory / "index.md"]
+            return {"args": gcall(directory)["all"], "entry": entry, "index": directory / "index.md",
+                    "node": node[0] if node else None}
+
+        def table(given, params, c):
+            order = {n: i for i, (n, _) in enumerate(params)}
+            unknown = [q for q in given if q not in order]
+            if unknown:
+                raise NotFound(f"argument {unknown} is no parameter")
+            return sorted(((q, _label(v, c)) for q, v in given.items()), key=lambda kv: order[kv[0]])
+
+        sub, deep = pages / "sub", pages / "sub" / "deep"
+        rec1 = table(gcall(sub)["given"], gparams, ctx(pages, sub))
+        rec2 = table(gcall(deep)["given"], gparams, ctx(sub, deep))
+        idx1 = table(ncall(sub / "index.md")["given"], nparams, ctx(sub, None))
+        idx2 = table(ncall(deep / "index.md")["given"], nparams, ctx(deep, None))
+        sn1 = table(ncall(sub / "b.md")["given"], nparams, ctx(sub, sub / "b.md"))
+        sn2 = table(ncall(deep / "c.md")["given"], nparams, ctx(deep, deep / "c.md"))
+        for a, b, what in ((rec1, rec2, "recursive get_page_tree call"), (idx1, idx2, "PageNode call for index.md"),
+                           (sn1, sn2, "PageNode call for a sibling page")):
+            if a != b:
+                raise NotFound(f"the {what} passes different things one and two levels down: {a} / {b}")
+        # how PageNode decodes the file: sub/b.md is Latin-1 text, the walk runs with encoding=latin-1
+        b_node = ncall(sub / "b.md")
+        got_enc = b_node["given"].get("encoding")
+        title = getattr(b_node["self"], "title", None)
+        if title == "Café" and got_enc == "latin-1":
+            read_arg = "encoding"
+        elif title is None:
+            read_arg = "?not-decoded-with-the-encoding-argument"
+        else:
+            read_arg = "?decoded-as-" + ascii(title)
+        return {"gptParams": gparams, "pageNodeParams": nparams, "recCall": rec1, "indexNodeCall": idx1,
+                "subNodeCall": sn1, "readTextArg": read_arg}
+
+
+def main_call_table(given, settings, md_type):
+    """the arguments of the get_page_tree call of ford.main (bound to parameters), each named by the project setting
+    whose value it is (`proj_data.<setting>`)"""
+    import dataclasses
+    import inspect
+
+    common.import_ford()
+    from ford.pagetree import get_page_tree
+
+    order = {n: i for i, n in enumerate(inspect.signature(get_page_tree).parameters)}
+    fields = [f.name for f in dataclasses.fields(settings)] if dataclasses.is_dataclass(settings) else sorted(vars(settings))
+    out = []
+    for q, v in given.items():
+        names = []
+        if v is not None and not isinstance(v, bool):
+            names = [f for f in fields if getattr(settings, f, None) is v] or \
+                    [f for f in fields if type(getattr(settings, f, None)) is type(v) and getattr(settings, f, None) == v]
+        if q in names:
+            lab = "proj_data." + q
+        elif names:
+            lab = "proj_data." + names[0]
+        elif isinstance(v, md_type):
+            lab = "md"
+        elif isinstance(v, str):
+            lab = "'" + v
+        elif v is None:
+            lab = "None"
+        else:
+            lab = type(v).__name__.lower().replace("progressbar", "progress")
+        out.append((q, lab))
+    return sorted(out, key=lambda kv: order.get(kv[0], 99))
+
+
+PROBE_ALIASES = [("page", "/o/page"), ("k", "V")]
+PROBE_LINES = ["|k|", " |k|", "   |k|", "    |k|", "\t|k|", "        - [a](|page|/a.html)", "\t- ![i](|page|/i.png)",
+               "> |k|", "1.  |k| and |k|", "    \\|k|", "|nope| |k|", "| k | |k|", "    continuation (|page|/x.html)",
+               "\t\t|k", "|k||", ""]
+
+
+def alias_probe():
+    common.import_ford()
+    from ford._markdown import MetaMarkdown
+
+    md = MetaMarkdown(aliases=dict(PROBE_ALIASES))
+    try:
+        pre = md.preprocessors["ford_aliases"]
+    except KeyError:
+        raise NotFound("MetaMarkdown(aliases=...) registers no preprocessor called ford_aliases")
+    out = pre.run(list(PROBE_LINES))
+    if not (isinstance(out, list) and len(out) == len(PROBE_LINES) and all(isinstance(x, str) for x in out)):
+        raise NotFound(f"the alias preprocessor returned {out!r} for {len(PROBE_LINES)} lines")
+    return {"aliasProbeAliases": PROBE_ALIASES, "aliasProbeIn": PROBE_LINES, "aliasProbeOut": out}
+
+
+# the probe directory: (name, kind, content, how it is on disk)
+#   kind "page": content = (title, ordered_subpage);  "file": content ignored;  "dir": content = entries
+#   on disk: None = regular, "out" = symbolic link to a copy kept outside the page directory,
+#            "sib:<name>" = link to that sibling, "dangling" = link to nothing
+PROBE_DIR = [
+    ("index.md", "page", ("Top", ["news.md", "../outside.md"]), None),
+    ("a.md", "page", ("A", []), None),
+    ("changelog.md", "page", ("Changes", []), "out"),
+    ("news.md", "page", ("A", []), "sib:a.md"),
+    ("logo.txt", "file", None, "out"),
+    ("plain.txt", "file", None, None),
+    ("broken.md", "page", ("B", []), "dangling"),
+    ("docs", "dir", [
+        ("index.md", "page", ("Docs", []), None),
+        ("model.md", "page", ("Model", []), "out"),
+        ("deep", "dir", [("index.md", "page", ("Deep", []), "out")], None),
+    ], "out"),
+    ("guide", "dir", [
+        ("index.md", "page", ("Guide", []), None),
+        ("theory", "dir", [("index.md", "page", ("Theory", []), None), ("t.dat", "file", None, None)], "out"),
+    ], None),
+]
+
+
+def _probe_write(root, ext, entries, state):
+    import os
+
+    root.mkdir(parents=True, exist_ok=True)
+    for name, kind, content, how in entries:
+        p = root / name
+        if how == "dangling":
+            os.symlink("nowhere/" + name, p)
+            continue
+        if how and how.startswith("sib:"):
+            os.symlink(how[4:], p)
+            continue
+        dest = p
+        if how == "out":
+            state[0] += 1
+            dest = ext / f"kept{state[0]}" / ("ORIGINAL-" + name.upper())
+            dest.parent.mkdir(parents=True, exist_ok=True)
+            os.symlink(os.path.relpath(dest, root) if state[0] % 2 else str(dest), p)
+        if kind == "dir":
+            _probe_write(dest, ext, content, state)
+        elif kind == "page":
+            title, ordered = content
+            dest.write_text("".join([f"title: {title}\n"] + [f"ordered_subpage: {o}\n" for o in ordered]) + "\ntext\n")
+        else:
+            dest.write_text("data\n")
+
+
+def _lean_entries(entries):
+    out = []
+    for name, kind, content, how in entries:
+        if how == "dangling":
+            continue  # a link to nothing is no entry
+        if kind == "dir":
+            out.append(f".dir {chars(name)} [{', '.join(_lean_entries(content))}]")
+        elif kind == "page":
+            title, ordered = content
+            out.append(f".file {chars(name)} ⟨some {chars(title)}, {strlist(ordered)}, [], []⟩")
+        else:
+            out.append(f".file {chars(name)} ⟨none, [], [], []⟩")
+    return out
 
 
 def chars(s):
-    return "[" + ", ".join("'" + ("\\'" if c == "'" else "\\\\" if c == "\\" else c) + "'" for c in s) + "]"
+    def one(c):
+        return {"'": "\\'", "\\": "\\\\", "\t": "\\t", "\n": "\\n"}.get(c, c)
+    return "[" + ", ".join("'" + one(c) + "'" for c in s) + "]"
 
 
 def strlist(xs):
     return "[" + ", ".join(chars(x) for x in xs) + "]"
 
 
-def extract():
-    outfile_is_pagedir()
-    index, suffix, first, last = pagetree_constants()
-    media_key, media_seg, out_key = media_copy()
-    return {
-        "mediaSrcKey": media_key,
-        "mediaDestSeg": media_seg,
-        "outDirKey": out_key,
-        **alias_setup(),
-        "aliasTable": alias_table(),
-        "pageDirSeg": page_dir_seg(),
-        "locSeg": loc_seg(),
-        "nodeUrlSeg": node_url_seg(),
-        "convPathSeg": conv_path_seg(),
-        "indexName": index,
-        "mdSuffix": suffix,
-        "skipFirst": first,
-        "skipLast": last,
-        **call_tables(),
-    }
+_CACHE = {}
+
+
+def extract(fresh=False):
+    """all tables (computed once per process: the probes run the real code)"""
+    if fresh or "t" not in _CACHE:
+        index, suffix = pagetree_constants()
+        _CACHE["t"] = {
+            **main_probe(),
+            **page_probe(),
+            "indexName": index,
+            "mdSuffix": suffix,
+            **forward_probe(),
+            **alias_probe(),
+        }
+    return _CACHE["t"]
 
 
 def pairs(kv):
@@ -446,34 +633,38 @@ def pairs(kv):
 
 
 def translate():
-    t = extract()
+    t = extract(fresh=True)
     al = ", ".join(f"({chars(k)}, {strlist(v)})" for k, v in t["aliasTable"])
-    text = f"""/- GENERATED by translate/c17.py from ford/__init__.py, ford/output.py, ford/pagetree.py - do not edit -/
+    text = f"""/- GENERATED by translate/c17.py from ford/__init__.py, ford/output.py, ford/pagetree.py - do not edit.
+   The path, alias, media and skip tables are OBSERVED by running the real code on stub inputs (see the translator), the call tables are read from the source. -/
 import FordModel.Basic.Chars
 namespace Ford.Gen.C17
 open Ford
 
-/-- `aliases.update({{...}})` in `ford.main`: alias name -> segments appended to `project_url` -/
+/-- the aliases that `ford.main` hands to `MetaMarkdown` whose value lies at or below `base_url`: name -> segments below it -/
 def aliasTable : List (Str × List Str) := [{al}]
-/-- `BasePage.__init__`: `self.page_dir = self.out_dir / ...` -/
+/-- `PagetreePage.page_dir` relative to the output directory -/
 def pageDirSeg : List Str := {strlist(t["pageDirSeg"])}
-/-- `PagetreePage.loc` -/
+/-- `PagetreePage.loc` without the path of the page -/
 def locSeg : List Str := {strlist(t["locSeg"])}
-/-- `PageNode.url`: `self.base_url / ... / self.path` -/
+/-- `PageNode.url` relative to `base_url`, without the path of the page -/
 def nodeUrlSeg : List Str := {strlist(t["nodeUrlSeg"])}
-/-- `PageNode.__init__`: `output_dir / ... / self.path.parent` (the `path=` of the Markdown conversion) -/
+/-- the `path=` that `PageNode` gives the Markdown conversion, relative to the output directory, without the location of the page -/
 def convPathSeg : List Str := {strlist(t["convPathSeg"])}
 /-- the index file name used by `get_page_tree` / `PageNode` -/
 def indexName : Str := {chars(t["indexName"])}
 /-- `filename.suffix == ...` -/
 def mdSuffix : Str := {chars(t["mdSuffix"])}
-/-- `if name[0] == c: continue` -/
+/-- first characters (of all printable ASCII ones) that make `get_page_tree` pass over a directory entry -/
 def skipFirst : List Char := {chars("".join(t["skipFirst"]))}
-/-- `if name[-1] == c: continue` -/
+/-- last characters (of all printable ASCII ones) that make `get_page_tree` pass over a directory entry -/
 def skipLast : List Char := {chars("".join(t["skipLast"]))}
 
-/-! argument forwarding (parameter -> expression passed; an expression is a name of the caller,
-    `'text` for a string literal, or source text; parameters that a call omits are absent) -/
+/-! argument forwarding, OBSERVED by running the walk with a recognisable value for every argument (parameter ->
+    what is passed, named by what it is: a parameter name = the very value the enclosing `get_page_tree` call received
+    for it, `<entry>` = the path of the directory entry being processed, `<index>` = the index.md of the directory,
+    `<node>` = the PageNode of the enclosing call's own index.md, `'text` = a string literal; parameters that a call
+    omits are absent) -/
 
 /-- parameters of `get_page_tree` with their default expressions (`[]` = required) -/
 def gptParams : List (Str × Str) := {pairs(t["gptParams"])}
@@ -485,27 +676,51 @@ def recCall : List (Str × Str) := {pairs(t["recCall"])}
 def indexNodeCall : List (Str × Str) := {pairs(t["indexNodeCall"])}
 /-- `PageNode(...)` for a sibling `*.md` inside the loop -/
 def subNodeCall : List (Str × Str) := {pairs(t["subNodeCall"])}
-/-- `get_page_tree(...)` in `ford.main` -/
+/-- `get_page_tree(...)` in `ford.main`: each argument named by the project setting whose value it is -/
 def mainCall : List (Str × Str) := {pairs(t["mainCall"])}
-/-- `Path(path).read_text(...)` in `PageNode.__init__`: the encoding expression -/
+/-- how `PageNode` decodes its file: `encoding` = with the value of its `encoding` argument (a Latin-1 page read in a walk run with `latin-1`) -/
 def readTextArg : Str := {chars(t["readTextArg"])}
 
 /-! the media directory and the set-up of the aliases -/
 
-/-- `Documentation.writeout`: `copytree(self.data[<key>], out_dir / ...)` - the project setting that is copied -/
+/-- the project setting whose directory a complete run copies into the output (observed with a marker file) -/
 def mediaSrcKey : Str := {chars(t["mediaSrcKey"])}
 /-- ... and where below the output directory it is put -/
 def mediaDestSeg : List Str := {strlist(t["mediaDestSeg"])}
-/-- `Documentation.writeout`: `out_dir = self.data[<key>]` -/
+/-- the project setting that names the directory the run writes to (observed) -/
 def outDirKey : Str := {chars(t["outDirKey"])}
-/-- `ford.main`: `url_path = pathlib.Path(<expr>)`, the root of the predefined aliases -/
+/-- the value of `|url|`, the root of the predefined aliases (the scratch directory of the probe run is written `<root>`) -/
 def aliasRootExpr : Str := {chars(t["aliasRootExpr"])}
-/-- `ford.main`: `MetaMarkdown(..., base_url=<expr>, ...)`, the directory links are made relative in -/
+/-- the `base_url` that `ford.main` gives `MetaMarkdown`: the directory links are made relative in -/
 def mdBaseUrlExpr : Str := {chars(t["mdBaseUrlExpr"])}
-/-- `ford.main`: what `aliases` is built from, in source order (later layers win) -/
+/-- the layers of the alias dictionary in increasing precedence, observed with a user alias called `url` -/
 def aliasLayers : List Str := {strlist(t["aliasLayers"])}
+
+/-! the alias preprocessor, probed: `MetaMarkdown(aliases=aliasProbeAliases)`, its registered alias
+    preprocessor run on `aliasProbeIn` gave `aliasProbeOut` -/
+
+def aliasProbeAliases : List (Str × Str) := {pairs(t["aliasProbeAliases"])}
+def aliasProbeIn : List Str := {strlist(t["aliasProbeIn"])}
+def aliasProbeOut : List Str := {strlist(t["aliasProbeOut"])}
 
 end Ford.Gen.C17
 """
     common.write_if_changed(common.LEAN / "FordModel" / "Generated" / "C17.lean", text)
+    probe = f"""/- GENERATED by translate/c17.py by running ford.pagetree.get_page_tree on a fixed directory - do not edit -/
+import FordModel.PageTree
+namespace Ford.Gen.C17
+open Ford Ford.PT
+
+/-- the probe directory as it looks through its symbolic links (`changelog.md`, `logo.txt`, `docs`,
+    `docs/model.md`, `docs/deep/index.md`, `guide/theory` are links to things kept outside the page directory,
+    `news.md` is a link to `a.md`; `broken.md`, a link to nothing, is no entry) -/
+def walkProbeDir : List Entry := [{', '.join(_lean_entries(PROBE_DIR))}]
+/-- `[n.path for n in get_page_tree(<probe directory>)]`, observed -/
+def walkProbePages : List PathS := [{', '.join(strlist(x) for x in t["walkProbePages"])}]
+/-- `[n.files for n in get_page_tree(<probe directory>)]`, observed -/
+def walkProbeFiles : List (List Str) := [{', '.join(strlist(x) for x in t["walkProbeFiles"])}]
+
+end Ford.Gen.C17
+"""
+    common.write_if_changed(common.LEAN / "FordModel" / "Generated" / "C17Probe.lean", probe)
     return t
